@@ -1,7 +1,7 @@
 #!/usr/bin/env python3
 """Re-runs the checks against every stored seeded change (regression run for the machinery).
 
-usage: recheck_seeds.py [ID ...]      (default: every /verif/seeded/*)
+usage: recheck_seeds.py [--checks C04,C13] [ID ...]      (default: every /verif/seeded/*, each with the checks recorded for it)
 
 For each seeded change: a scratch worktree of /repo at HEAD gets the stored patch, the check(s)
 recorded in its meta.json are run against it through FLOUNDER_REPO, and the outcome is appended to
@@ -24,7 +24,13 @@ def sh(cmd, cwd=None, env=None, timeout=7200):
 
 
 def main():
-    ids = sys.argv[1:] or sorted(os.path.basename(os.path.dirname(p)) for p in glob.glob(VERIF + "/seeded/*/meta.json"))
+    args = sys.argv[1:]
+    force = None
+    if "--checks" in args:
+        i = args.index("--checks")
+        force = args[i + 1].split(",")
+        del args[i:i + 2]
+    ids = args or sorted(os.path.basename(os.path.dirname(p)) for p in glob.glob(VERIF + "/seeded/*/meta.json"))
     head = subprocess.check_output("git -C /repo rev-parse HEAD", shell=True, text=True).strip()
     vc = subprocess.check_output("git -C %s rev-parse --short HEAD" % VERIF, shell=True, text=True).strip()
     if not os.path.isdir(WT):
@@ -42,7 +48,7 @@ def main():
             bad.append(sid)
             continue
         prev = meta.get("confirmation", {}).get("checks_on_patched_tree", {})
-        checks = [c for c, v in prev.items() if v.get("detected")] or list(prev) or [meta["breaks_property"]]
+        checks = force or [c for c, v in prev.items() if v.get("detected")] or list(prev) or [meta["breaks_property"]]
         res = {}
         for c in checks:
             t = time.time()
